@@ -31,7 +31,7 @@ impl Monitor for C12 {
         if tier == Tier::Sanitizer {
             vec!["uplinks_checked"]
         } else {
-            vec!["uplinks_checked", "adrackreq_expected", "backoff_step_expected", "ack_expected", "accepted_downlink", "rejected_downlink", "adr_toggle", "at_lowest_rate_with_n_ge_64", "classc_downlink", "two_classc_downlinks", "mask_limited_uplinks", "adr_set_again"]
+            vec!["uplinks_checked", "adrackreq_expected", "backoff_step_expected", "ack_expected", "accepted_downlink", "rejected_downlink", "adr_toggle", "at_lowest_rate_with_n_ge_64", "classc_downlink", "two_classc_downlinks", "mask_limited_uplinks", "adr_set_again", "classc_then_classa_downlink"]
         }
     }
 
@@ -225,13 +225,30 @@ fn history(front: Front, reg: Reg, rng: &mut Prng, col: &mut Collector) {
                         plan = "classC";
                         accepted = true;
                         classc = true;
-                        if rng.bool() {
-                            // a second accepted downlink before the next uplink: the ACK owed for
-                            // a confirmed one must survive a later unconfirmed one
-                            let f2 = net.downlink(&Down { fcnt: fcnt_down + 2, confirmed: !dl_confirmed, port: Some(9), payload: &[], ..Default::default() });
-                            script.between.push(f2);
-                            two_classc = true;
-                            col.event("two_classc_downlinks");
+                        match rng.below(3) {
+                            0 => {
+                                // a second accepted downlink before the next uplink: the ACK owed for
+                                // a confirmed one must survive a later unconfirmed one
+                                let f2 = net.downlink(&Down { fcnt: fcnt_down + 2, confirmed: !dl_confirmed, port: Some(9), payload: &[], ..Default::default() });
+                                script.between.push(f2);
+                                two_classc = true;
+                                col.event("two_classc_downlinks");
+                            }
+                            1 => {
+                                // ... or the second one arrives in a receive window of the same uplink
+                                // (Class A): same obligation, and the count restarts for certain
+                                let f2 = net.downlink(&Down { fcnt: fcnt_down + 2, confirmed: !dl_confirmed, port: Some(9), payload: &[], ..Default::default() });
+                                if rng.bool() {
+                                    script.rx1.push(f2);
+                                } else {
+                                    script.rx2.push(f2);
+                                }
+                                two_classc = true;
+                                classc = false;
+                                plan = "classC+classA";
+                                col.event("classc_then_classa_downlink");
+                            }
+                            _ => {}
                         }
                     }
                 }
